@@ -20,7 +20,6 @@ import (
 	"testing"
 	"time"
 
-	"github.com/gotid/god/lib/discov"
 	"github.com/gotid/god/lib/discov/internal"
 	"github.com/gotid/god/lib/logx"
 	"verif.local/vk"
@@ -82,13 +81,8 @@ func (w *c15World) gapAttach(g *c15Gen, excl bool, k int) {
 	w.ops = append(w.ops, c15Op{Op: "sub", X: excl})
 	w.etcd.scheduleGap(w.gapChanges(g, k))
 	nb := w.etcd.watchCount()
-	var opts []discov.SubOption
-	if excl {
-		opts = append(opts, discov.Exclusive())
-	}
-	sub, err := discov.NewSubscriber(w.endpoints(), svc, opts...)
-	if err != nil {
-		w.inconclusive("NewSubscriber failed: %v", err)
+	sub, ok := w.newSubscriber(svc, excl)
+	if !ok {
 		return
 	}
 	s := &c15Sub{id: len(w.subs), svc: svc, excl: excl, sub: sub, own: map[string]map[string]bool{}}
@@ -100,15 +94,13 @@ func (w *c15World) gapAttach(g *c15Gen, excl bool, k int) {
 		return
 	}
 	groups := map[string][]string{}
-	nk := map[string]bool{}
 	for key, v := range snap {
 		groups[v] = append(groups[v], key)
-		nk[key] = true
 	}
 	for v, ks := range groups {
 		s.mAdd(ks, v)
 	}
-	w.known[svc] = nk
+	w.setKnown(svc, snap)
 	w.subs = append(w.subs, s)
 	if !w.waitWatches(nb+1, "attach") {
 		return
